@@ -6,16 +6,15 @@
     against the Rust code by the correspondence check.
 
     Partial items:
-    - generalised power cone: the stored gradient is proved to be the derivative of the dual
-      barrier only for (dim1, dim2) in {(2,1), (2,2), (3,1)} ([C14_gp_grad_is_derivative_d.._partial]);
-      the general-dimension statement, the Hessian representation D + pp' - qq' - rr' and the
-      conjugacy of its primal gradient are not proved (per-sample checks only; the primal
-      gradient is in fact NOT the conjugate map for dim2 > 0: known finding F4);
-    - [C14_pd_scaling]: Hs is proved symmetric positive semidefinite with kernel inside the
-      {s, delta_s}-orthogonal complement; strict definiteness needs t > 0 and independence of
-      the three directions and is not proved;
-    - convergence of the Wright-omega / Newton-Raphson iterations is not proved: the conjugacy
-      theorems take the equation they solve as a hypothesis. *)
+    - generalised power cone: gradient, Hessian (the dense matrix D + pp' - qq' - rr' of the stored
+      vectors, [gpHuu]/[gpHuw]/[gpHww]) and the degree identity <grad,z> = -(dim1+1) are proved
+      in general dimension.  Not proved: that [gp_mul_Hs] multiplies by exactly that dense
+      matrix (it is D x + p (p.x) - q (q.x) - r (r.x) by definition of the model; checked per
+      sample), H z = -grad, and conjugacy of the primal gradient, which is in fact FALSE of
+      the code for dim2 > 0: known finding F4;
+    - convergence of the Newton-Raphson iterations is not proved: the conjugacy theorems take
+      the equation they solve as a hypothesis; the Wright-omega iteration is enclosed on
+      [1, 1000] only ([C14_wright_omega_enclosure], exact real arithmetic). *)
 From Coq Require Import Reals List.
 From Coquelicot Require Import Coquelicot.
 Import ListNotations.
@@ -23,7 +22,8 @@ Require Import Clarabel.Base.Ops Clarabel.Nonsym.Model Clarabel.Nonsym.FloatTran
 Require Import Clarabel.Nonsym.LemmasExp Clarabel.Nonsym.LemmasPow Clarabel.Nonsym.LemmasAlg
                Clarabel.Nonsym.LemmasConj Clarabel.Nonsym.LemmasThird Clarabel.Nonsym.LemmasThirdPow
                Clarabel.Nonsym.LemmasGp Clarabel.Nonsym.LemmasPow2 Clarabel.Nonsym.LemmasPowConj
-               Clarabel.Nonsym.LemmasGpD.
+               Clarabel.Nonsym.LemmasGpD Clarabel.Nonsym.LemmasGpGen Clarabel.Nonsym.LemmasPd2
+               Clarabel.Nonsym.LemmasWright.
 
 (* membership predicates = interior of the cone / dual cone *)
 Theorem C14_exp_primal_feasible_iff : stmt_exp_primal_feasible_iff.
@@ -76,34 +76,23 @@ Theorem C14_exp_primal_grad_conjugate : stmt_exp_primal_grad_conjugate.
 Proof. exact exp_primal_grad_conjugate_ok. Qed.
 Theorem C14_pow_primal_grad_conjugate : stmt_pow_primal_grad_conjugate.
 Proof. exact pow_primal_grad_conjugate_ok. Qed.
-(* genpow gradient = derivative of the dual barrier, fixed small dimensions *)
-Theorem C14_gp_grad_is_derivative_d21_partial : forall a b u0 u1 w0,
-  (0 < a -> 0 < b -> 0 < u0 -> 0 < u1 -> 0 < gp_zeta [a; b] [u0; u1] [w0] ->
-  let d := gp_grad_H TOpsR [a; b] [u0; u1] [w0] in
-  is_derive (fun t => gp_fstar [a; b] [t; u1] [w0]) u0 (nth 0 (gp_grad_u d) 0) /\
-  is_derive (fun t => gp_fstar [a; b] [u0; t] [w0]) u1 (nth 1 (gp_grad_u d) 0) /\
-  is_derive (fun t => gp_fstar [a; b] [u0; u1] [t]) w0 (nth 0 (gp_grad_w d) 0))%R.
-Proof. exact gp_grad_is_derivative_d21_partial. Qed.
-Theorem C14_gp_grad_is_derivative_d22_partial : forall a b u0 u1 w0 w1,
-  (0 < a -> 0 < b -> 0 < u0 -> 0 < u1 -> 0 < gp_zeta [a; b] [u0; u1] [w0; w1] ->
-  let d := gp_grad_H TOpsR [a; b] [u0; u1] [w0; w1] in
-  is_derive (fun t => gp_fstar [a; b] [t; u1] [w0; w1]) u0 (nth 0 (gp_grad_u d) 0) /\
-  is_derive (fun t => gp_fstar [a; b] [u0; t] [w0; w1]) u1 (nth 1 (gp_grad_u d) 0) /\
-  is_derive (fun t => gp_fstar [a; b] [u0; u1] [t; w1]) w0 (nth 0 (gp_grad_w d) 0) /\
-  is_derive (fun t => gp_fstar [a; b] [u0; u1] [w0; t]) w1 (nth 1 (gp_grad_w d) 0))%R.
-Proof. exact gp_grad_is_derivative_d22_partial. Qed.
-Theorem C14_gp_grad_is_derivative_d31_partial : forall a b c u0 u1 u2 w0,
-  (0 < a -> 0 < b -> 0 < c -> 0 < u0 -> 0 < u1 -> 0 < u2 ->
-  0 < gp_zeta [a; b; c] [u0; u1; u2] [w0] ->
-  let d := gp_grad_H TOpsR [a; b; c] [u0; u1; u2] [w0] in
-  is_derive (fun t => gp_fstar [a; b; c] [t; u1; u2] [w0]) u0 (nth 0 (gp_grad_u d) 0) /\
-  is_derive (fun t => gp_fstar [a; b; c] [u0; t; u2] [w0]) u1 (nth 1 (gp_grad_u d) 0) /\
-  is_derive (fun t => gp_fstar [a; b; c] [u0; u1; t] [w0]) u2 (nth 2 (gp_grad_u d) 0) /\
-  is_derive (fun t => gp_fstar [a; b; c] [u0; u1; u2] [t]) w0 (nth 0 (gp_grad_w d) 0))%R.
-Proof. exact gp_grad_is_derivative_d31_partial. Qed.
+(* generalised power cone, all dimensions: gradient, Hessian structure, degree *)
+Theorem C14_gp_grad_is_derivative : stmt_gp_grad_is_derivative.
+Proof. exact gp_grad_is_derivative_ok. Qed.
+Theorem C14_gp_hess_is_derivative : stmt_gp_hess_is_derivative.
+Proof. exact gp_hess_is_derivative_ok. Qed.
+Theorem C14_gp_log_homogeneous : stmt_gp_log_homogeneous.
+Proof. exact gp_log_homogeneous_ok. Qed.
+Theorem C14_example_gp_interior : gp_interior [1 / 4; 3 / 4] [1; 1] [1].
+Proof. exact gp_interior_example. Qed.
+(* the Wright-omega iteration solves w + ln w = z to 1e-6 for every z in [1, 1000] *)
+Theorem C14_wright_omega_enclosure : forall z, (1 <= z <= 1000)%R -> wright_residual_ok z.
+Proof. exact wright_omega_enclosure. Qed.
 (* primal-dual scaling: secant equations, semidefiniteness, fall-back mu H *)
 Theorem C14_pd_scaling : stmt_pd_scaling.
 Proof. exact pd_scaling_ok. Qed.
+Theorem C14_pd_scaling_strict : stmt_pd_scaling_strict.
+Proof. exact pd_scaling_strict_ok. Qed.
 Theorem C14_update_Hs_dual : stmt_update_Hs_dual.
 Proof. exact update_Hs_dual_ok. Qed.
 (* starting points *)
